@@ -59,6 +59,10 @@ func extraMode(mode string, n int, r *rand.Rand) bool {
 		for _, x := range grid12() {
 			emit(x)
 		}
+	case "conc":
+		for _, op := range []string{"sort", "reduce", "statement"} {
+			emit(runConc(r, op, n))
+		}
 	case "oracle":
 		for _, x := range genOracleSamples(r, n) {
 			emit(x)
